@@ -96,6 +96,15 @@ pub fn run_random(seed: u64, count: usize, out: &mut dyn Write) {
         // "the same blob is what both file formats store for the Attributes property": every fourth case the map sits
         // on the first of three sibling instances of one class (the others carry maps of their own); the stored bytes
         // are recovered by reading the files without the database (the property then comes back as the raw string)
+        // the same bytes reach a sink that takes three bytes per call (the Write contract allows partial writes)
+        if i % 4 == 2 && ev["write"] == "ok" {
+            let mut sink = crate::faults::ChunkSink::new(3);
+            ev["chunked"] = match catch_unwind(AssertUnwindSafe(|| a.to_writer(&mut sink))) {
+                Ok(Ok(())) => bytes(&sink.taken),
+                Ok(Err(e)) => json!({"err": format!("{:?}", e)}),
+                Err(p) => json!({"panic": panic_msg(p)}),
+            };
+        }
         if i % 4 == 1 && ev["write"] == "ok" {
             ev["files"] = stored_blobs(&[a.clone(), gen::attributes_any(&mut rng), gen::attributes_any(&mut rng)]);
         }
